@@ -14,7 +14,7 @@ RULE = (
     "quotes, stray operators and brackets, gigantic / out-of-range numbers, NaN / Infinity, non-ASCII, control characters, "
     "Python keywords, string prefixes, broken escapes, private attribute names, regex / glob / strptime metacharacters, "
     "duplicated date tokens, empty); the CID is loaded with Cid.read and, when it loads, the base data is validated under "
-    "it. Data side: every cell of the base data is replaced by every pool value and read with cutplace.rows (raise mode) "
+    "it; plus the cell's own value decorated in 22 ways (no-break and other non-ASCII white space, control characters, zero-width characters, brackets, stray punctuation, doubled). Data side: every cell of the base data is replaced by every pool value and read with cutplace.rows (raise mode) "
     "and validate. Thorough: all pairs of cells within a row over the 25 most productive values, and containers "
     "(delimited, fixed, ODS, XLSX) truncated and with one byte replaced at every offset. A tenth of the cases also go "
     "through applications.main (must not answer 4). Oracle: only InterfaceError / DataError may escape; the innermost "
@@ -34,6 +34,10 @@ POOL = [
     "-1e5000", "-1e5000...", "...-1e5000", "1e5000", "...5", ":5", "5...", "1e999999999999999999", "1e-999999999999999999", "0...1e999999999999999999", "a{99999999999}", "(a{99999}){99999}", "0x" + "f" * 5000, "9" * 5000, "hex", "rot13", "base64", "zlib_codec", "unicode_escape", "idna", "punycode",
     "DD.DD", "YYYYYY", "hh:hh", "%%DD", "DD%", "MMMM", "x" * 300, "a,b;c|d", "tab", "TAB", "cr lf",
 ]
+# hostile variations of the cell's own (well-formed) value: white space the tokenizer does not know, control characters,
+# brackets and stray punctuation glued to it
+DECORATIONS = ["\xa0{}", "{}\xa0", "\u2003{}", "{}\u2003", "{}\u3000", "\u1680{}", "{}\t", "{}\n", "\n{}", "\ufeff{}", "{}\ufeff", "{}\x00", "{}\x0c", "\x1f{}", "{}\u200b",
+               "({})", "{},", "{}#x", "{}\\", "{} {}", "{}\xa0{}", "{},\xa0{}"]
 PRODUCTIVE = ["'", '"abc', "u'a'", '"\\u"', "(", "[", "*", "%", "-", "1e999", "9" * 40, "0x", "1__0", "...", ",", "NaN", "Infinity", "äöü", "\x00", "\n", "class", "is valid", "DD.DD", "", "5...1"]
 
 
@@ -300,7 +304,7 @@ def run(ctx):
         # ---- CID cells, one at a time
         for r, row in enumerate(base.rows):
             for c in range(1, {"D": 3, "F": 7, "C": 4}[row[0]]):
-                for value in POOL:
+                for value in POOL + [d.replace("{}", row[c]) for d in DECORATIONS]:
                     index += 1
                     if not ctx.mine(index):
                         continue
@@ -312,7 +316,7 @@ def run(ctx):
         # ---- data cells, one at a time
         for r in range(len(BASE_DATA)):
             for c in range(len(BASE_DATA[0])):
-                for value in POOL:
+                for value in POOL + [d.replace("{}", BASE_DATA[r][c]) for d in DECORATIONS]:
                     index += 1
                     if not ctx.mine(index):
                         continue
